@@ -66,6 +66,7 @@ impl Rng {
     /// Uniform in lo..=hi.
     #[inline]
     pub fn range(&mut self, lo: usize, hi: usize) -> usize {
+        let (lo, hi) = if hi < lo { (hi, lo) } else { (lo, hi) };
         lo + self.below(hi - lo + 1)
     }
 
